@@ -268,8 +268,10 @@ def rankCols (p : Pop) (f : List EInt) : Nat → Except String (List (List EInt)
 /-- row `g` of the transposed matrix -/
 def rankRow (cols : List (List EInt)) (g : Nat) : List EInt := cols.map (fun c => c.getD g .posInf)
 
-/-- `Population.get_rank(entity, criteria, condition)` -/
-def getRank (p : Pop) (crit : List Int) (cond : List Bool) : Except String (List Int) :=
+/-- `Population.get_rank(entity, criteria, condition)`, the inner `numpy.argsort` of the rows being
+given (`sort1`); the outer one sorts a permutation, which has no ties -/
+def getRankWith (sort1 : List EInt → List Nat) (p : Pop) (crit : List Int) (cond : List Bool) :
+    Except String (List Int) :=
   match membersPosition p.ids with
   | .error x => .error x
   | .ok pos =>
@@ -278,9 +280,15 @@ def getRank (p : Pop) (crit : List Int) (cond : List Bool) : Except String (List
     match rankCols p filtered (maxL pos + 1) with
     | .error x => .error x
     | .ok cols =>
-      let sorted := (List.range p.n).map (fun g => argsortN (argsortE (rankRow cols g)))
+      let sorted := (List.range p.n).map (fun g => argsortN (sort1 (rankRow cols g)))
       let result := (p.ids.zip pos).map (fun gk => ((sorted.getD gk.1 []).getD gk.2 0 : Nat))
       .ok (whereL cond (result.map Int.ofNat) (-1))
+
+/-- `Population.get_rank(entity, criteria, condition)`. `numpy.argsort` is not stable and every
+row has ties (the `inf` paddings); the model sorts stably and `C10_rank_ties_irrelevant` shows that
+with distinct criteria any other sorting permutation gives the same ranks. -/
+def getRank (p : Pop) (crit : List Int) (cond : List Bool) : Except String (List Int) :=
+  getRankWith argsortE p crit cond
 
 /-! ## Projectors -/
 
@@ -353,9 +361,18 @@ storage order: a filter on the membership list -/
 def valuesOf {α} (p : Pop) (role : Option Role) (g : Nat) (a : List α) : List α :=
   ((p.ms.zip a).filter (fun ma => ma.1.group == g && roleOk role ma.1)).map (·.2)
 
+/-- the persons of group `g` that satisfy the condition, by index, in storage order -/
+def rankedIn (p : Pop) (cond : List Bool) (g : Nat) : List Nat :=
+  (List.range p.ms.length).filter fun i => (p.ms.getD i default).group == g && cond.getD i false
+
 /-- `mp` is a permutation of the person indices that sorts them by group: what
 `numpy.argsort(members_entity_id)` returns, whatever the order among the members of one group -/
 def SortsByGroup (ids mp : List Nat) : Prop :=
   mp.Perm (List.range ids.length) ∧ mp.Pairwise (fun i j => ids.getD i 0 ≤ ids.getD j 0)
+
+/-- `s` is a permutation of the column indices that sorts the row (any order among equal values) -/
+def SortsRow (row : List EInt) (s : List Nat) : Prop :=
+  s.Perm (List.range row.length) ∧
+  s.Pairwise (fun i j => (row.getD i .posInf).le (row.getD j .posInf) = true)
 
 end OFCore.Grp
